@@ -1,5 +1,5 @@
 """C06 - skip() consumes exactly one item (DESIGN 5.6): one-iteration transfer tables of both twins."""
-from ..absint import Machine, State, Int, Adt, Atom, Fork, Abort, iv_and, iv_str, iv_min, iv_max, lin_add
+from ..absint import Machine, State, Int, Adt, Atom, Ref, Fork, Abort, iv_and, iv_str, iv_min, iv_max, lin_add
 from .. import load, mir, l1, prims, oracle, export
 from ..prims import ok, err, RESULT, norm_adt
 from . import io_rules as io, intdec
@@ -73,6 +73,23 @@ def stack_prims():
     o['<std::vec::Vec<T, A> as std::ops::Deref>::deref'] = lambda m, cfg, f, args, t: args[0]
     o['<std::vec::Vec<T, A> as std::ops::DerefMut>::deref_mut'] = lambda m, cfg, f, args, t: args[0]
     o['std::vec::Vec::<T>::new'] = lambda m, cfg, f, args, t: Atom('stack')
+
+    def range_next(m, cfg, f, args, t):
+        # `for _ in 0 .. irounds { stack.push(None) }` of the mode switch, wherever it lives (skip itself or a helper): with symbolic
+        # counters the number of rounds is symbolic; the table records the loop and steps over it - what it pushes per round and
+        # how many rounds it makes is decided by T-SKIP.sim, which runs the switch with 0..3 open indefinite containers
+        from .. import l2
+        r = args[0]
+        it = m.read_path(cfg.st, r.key, r.path) if isinstance(r, Ref) else None
+        if isinstance(it, Adt) and it.adt.endswith('ops::Range'):
+            a, b = it.fields
+            if isinstance(a, Int) and isinstance(b, Int) and a.is_const() and b.is_const():
+                return l2.range_next(m, cfg, r, it)
+            cfg.st.events.append(('RANGE_LOOP', repr(b)))
+            return prims.NONE
+        return NotImplemented
+    o['std::iter::range::<impl std::iter::Iterator for std::ops::Range<A>>::next'] = range_next
+    o['<I as std::iter::IntoIterator>::into_iter'] = lambda m, cfg, f, args, t: args[0]
     return o
 
 
@@ -378,8 +395,8 @@ def twin_agreement(ctx, a_rows, n_rows):
             if any(not iv_and(ca[k], cn[k]) for k in ca if k in cn):
                 continue
             # compare paths that made the same source-level choices (same sequence of input events, same error/success)
-            ea = [e for e in ra['events'] if e not in ('PUSH', 'POP', 'LAST', 'CALL')]
-            en = [e for e in rn['events'] if e not in ('PUSH', 'POP', 'LAST', 'CALL')]
+            ea = [e for e in ra['events'] if e not in ('PUSH', 'POP', 'LAST', 'CALL', 'RANGE_LOOP')]
+            en = [e for e in rn['events'] if e not in ('PUSH', 'POP', 'LAST', 'CALL', 'RANGE_LOOP')]
             if ea != en:
                 continue
             if not left_counting and ra['res'].startswith('Err') != rn['res'].startswith('Err'):
